@@ -3,11 +3,14 @@
 package harness
 
 import (
+	"crypto/sha256"
+	"encoding/hex"
 	"fmt"
 	"reflect"
 	"sort"
 	"strings"
 
+	storetypes "cosmossdk.io/store/types"
 	abci "github.com/cometbft/cometbft/abci/types"
 	sdk "github.com/cosmos/cosmos-sdk/types"
 	"github.com/cosmos/cosmos-sdk/x/authz"
@@ -17,6 +20,7 @@ import (
 
 	"github.com/provenance-io/provenance/x/exchange"
 	markertypes "github.com/provenance-io/provenance/x/marker/types"
+	"github.com/provenance-io/provenance/x/trigger"
 	triggertypes "github.com/provenance-io/provenance/x/trigger/types"
 )
 
@@ -869,6 +873,360 @@ func (e *c11Env) wrappedSweep() {
 				e.w.Count("gov_wrapped_by_stranger_accepted")
 			}
 		}
+	}
+}
+
+// ---------------------------------------------------------------- nested create-trigger actions naming a foreign authority
+
+// storeHashes: one digest per KV store.
+func (e *c11Env) storeHashes(ctx sdk.Context) map[string]string {
+	out := map[string]string{}
+	for _, k := range e.app.GetStoreKeys() {
+		kv, ok := k.(*storetypes.KVStoreKey)
+		if !ok {
+			continue
+		}
+		h := sha256.New()
+		it := ctx.KVStore(kv).Iterator(nil, nil)
+		for ; it.Valid(); it.Next() {
+			kb, vb := it.Key(), it.Value()
+			h.Write([]byte(fmt.Sprintf("%d:%d:", len(kb), len(vb))))
+			h.Write(kb)
+			h.Write(vb)
+		}
+		it.Close()
+		out[kv.Name()] = hex.EncodeToString(h.Sum(nil))
+	}
+	return out
+}
+
+// nestedTriggerSweep: a stranger creates a trigger whose action is itself a create-trigger request
+// (nested 2 or 3 deep) in which the innermost trigger names a FOREIGN account as its authority and
+// carries a message only that account may send: a governance-only request of any module with the
+// governance address, a market endpoint signed by a market's admin, a bank send of another user.
+// Trigger actions run later through the router WITHOUT signature checks, so the creation must be
+// refused.  Whatever creation says, the chain is then run through the blocks needed (outer event,
+// begin-block execution, inner event, execution, ...) and every store but the trigger module's must
+// be what it was.
+func (e *c11Env) nestedTriggerSweep() {
+	gctx, _ := e.base.CacheContext()
+	fills, alts := c11GovFills(e, gctx)
+	stranger, other := addrN(165), addrN(166)
+	for _, a := range []sdk.AccAddress{stranger, other} {
+		ensureAccount(e.app, gctx, a)
+		fund(e.t, e.app, gctx, a, e.coins("100000nhash"))
+	}
+	admin := addrN(111).String() // all permissions on market 2
+	type target struct {
+		module, request, kind, authority string
+		msg                              sdk.Msg
+	}
+	var targets []target
+	var urls []string
+	for u := range fills {
+		urls = append(urls, u)
+	}
+	sort.Strings(urls)
+	for _, url := range urls {
+		module, request := c11Module(url)
+		if _, isAlt := alts[url]; isAlt || module == "" || url == "/provenance.oracle.v1.MsgSendQueryOracleRequest" {
+			continue
+		}
+		targets = append(targets, target{module, request, "governance_account", e.auth, fills[url](e.auth)})
+	}
+	for _, ep := range c11CallEndpoints {
+		if ep == "MarketUpdateEnabled" {
+			continue
+		}
+		msg, _ := e.epMsg(gctx, ep, 2, admin)
+		targets = append(targets, target{"exchange", ep, "market_admin", admin, msg})
+	}
+	targets = append(targets, target{"bank", "MsgSend", "another_user", other.String(),
+		&banktypes.MsgSend{FromAddress: other.String(), ToAddress: stranger.String(), Amount: e.coins("777nhash")}})
+	controls := []target{{"bank", "MsgSend", "the_stranger_itself", stranger.String(),
+		&banktypes.MsgSend{FromAddress: stranger.String(), ToAddress: other.String(), Amount: e.coins("5nhash")}}}
+
+	h0 := uint64(gctx.BlockHeight())
+	mk := func(authority string, height uint64, actions ...sdk.Msg) sdk.Msg {
+		m, err := triggertypes.NewCreateTriggerRequest([]string{authority}, &triggertypes.BlockHeightEvent{BlockHeight: height}, actions)
+		e.must(err, "nested create-trigger request")
+		return m
+	}
+	type shape struct {
+		name  string
+		depth int
+		build func(t target) sdk.Msg
+	}
+	s := stranger.String()
+	shapes := []shape{
+		{"stranger>foreign", 2, func(t target) sdk.Msg { return mk(s, h0+1, mk(t.authority, h0+4, t.msg)) }},
+		{"stranger>foreign>foreign", 3, func(t target) sdk.Msg { return mk(s, h0+1, mk(t.authority, h0+4, mk(t.authority, h0+7, t.msg))) }},
+		{"stranger>stranger>foreign", 3, func(t target) sdk.Msg { return mk(s, h0+1, mk(s, h0+4, mk(t.authority, h0+7, t.msg))) }},
+		{"stranger>foreign(with own action beside it)", 2, func(t target) sdk.Msg {
+			own := &banktypes.MsgSend{FromAddress: s, ToAddress: other.String(), Amount: e.coins("1nhash")}
+			// (registering the nested trigger hands it all the gas that is left, so it has to come last)
+			return mk(s, h0+1, own, mk(t.authority, h0+4, t.msg))
+		}},
+	}
+	run := func(t target, sh shape, control bool) {
+		cctx, _ := gctx.CacheContext()
+		before := e.storeHashes(cctx)
+		created := try(func() error {
+			return e.send(cctx.WithGasMeter(storetypes.NewGasMeter(5_000_000)), sh.build(t))
+		}) == nil
+		var changed []string
+		if created {
+			for h := int64(h0) + 1; h <= int64(h0)+12; h++ {
+				bctx := cctx.WithBlockHeight(h).WithEventManager(sdk.NewEventManagerWithHistory(nil)).
+					WithGasMeter(storetypes.NewInfiniteGasMeter()).WithBlockGasMeter(storetypes.NewInfiniteGasMeter())
+				_ = try(func() error { trigger.BeginBlocker(bctx, e.app.TriggerKeeper); return nil })
+				_ = try(func() error { trigger.EndBlocker(bctx, e.app.TriggerKeeper); return nil })
+			}
+			after := e.storeHashes(cctx)
+			for name, hv := range after {
+				if name != triggertypes.StoreKey && before[name] != hv {
+					changed = append(changed, name)
+				}
+			}
+			sort.Strings(changed)
+		}
+		e.w.Add(fmt.Sprintf("CNestedTrigger %s %s %s %d%%N %s %s %s", coqStr(t.module), coqStr(t.request), coqStr(t.kind), sh.depth, coqBool(control), coqBool(created), coqBool(len(changed) > 0)),
+			map[string]any{"kind": "nested_create_trigger", "target": t.module + "." + t.request, "innermost_authority": t.kind, "nesting": sh.name, "control": control,
+				"outer_trigger_created": created, "blocks_run": 12, "stores_changed_besides_trigger": changed})
+		e.w.Count("nested_trigger_cases")
+		if control {
+			if created && len(changed) > 0 {
+				e.w.Count("nested_trigger_controls_ran")
+				e.w.Nontrivial("nt/control/" + sh.name)
+			}
+		} else {
+			e.w.Nontrivial("nt/" + t.module + "." + t.request + "/" + sh.name)
+			if created {
+				e.w.Count("nested_trigger_foreign_created")
+			}
+		}
+	}
+	for _, sh := range shapes {
+		for _, t := range controls {
+			run(t, sh, true)
+		}
+		for _, t := range targets {
+			run(t, sh, false)
+		}
+	}
+}
+
+// ---------------------------------------------------------------- the governance-reserved branch: accepting commitments
+
+func (e *c11Env) commitHistories() {
+	k := e.app.ExchangeKeeper
+	ctx0, _ := e.base.CacheContext()
+	U, V, W := addrN(180).String(), addrN(181).String(), addrN(182).String()
+	allBut := func(skip exchange.Permission) []exchange.Permission {
+		var out []exchange.Permission
+		for _, p := range c11Perms {
+			if p != skip {
+				out = append(out, p)
+			}
+		}
+		return out
+	}
+	cfeeCoin := sdk.NewInt64Coin("nhash", 7)
+	type conf struct{ acc, bips, cfee, denom bool }
+	marketOf := map[conf]uint32{}
+	id := uint32(300)
+	for mask := 0; mask < 16; mask++ {
+		c := conf{mask&1 != 0, mask&2 != 0, mask&4 != 0, mask&8 != 0}
+		mk := exchange.Market{MarketId: id, MarketDetails: exchange.MarketDetails{Name: fmt.Sprintf("c11 commitments %d", mask)}, AcceptingOrders: true,
+			AcceptingCommitments: c.acc,
+			AccessGrants: []exchange.AccessGrant{{Address: U, Permissions: []exchange.Permission{exchange.Permission_update}},
+				{Address: V, Permissions: allBut(exchange.Permission_update)}}}
+		if c.bips {
+			mk.CommitmentSettlementBips = 25
+		}
+		if c.cfee {
+			mk.FeeCreateCommitmentFlat = []sdk.Coin{cfeeCoin}
+		}
+		if c.denom {
+			mk.IntermediaryDenom = "cherry"
+		}
+		_, err := k.CreateMarket(ctx0, mk)
+		e.must(err, "create commitments market")
+		marketOf[c] = id
+		id++
+	}
+	confTerm := func(c conf) string {
+		return fmt.Sprintf("{| mc_accepting := %s; mc_bips := %s; mc_cfee := %s; mc_denom := %s |}", coqBool(c.acc), coqBool(c.bips), coqBool(c.cfee), coqBool(c.denom))
+	}
+	read := func(ctx sdk.Context, m uint32) conf {
+		mk := k.GetMarket(ctx, m)
+		if mk == nil {
+			e.t.Fatalf("market %d not found", m)
+		}
+		return conf{mk.AcceptingCommitments, mk.CommitmentSettlementBips > 0, len(mk.FeeCreateCommitmentFlat) > 0, mk.IntermediaryDenom != ""}
+	}
+	grantsOf := func(ctx sdk.Context, m uint32) string {
+		var out []string
+		for _, ag := range k.GetAccessGrants(ctx, m) {
+			for _, p := range ag.Permissions {
+				out = append(out, fmt.Sprintf("(%s, %s, %s)", nTerm(int64(m)), nTerm(e.id(ag.Address)), c11PermNames[p]))
+			}
+		}
+		return coqList(out)
+	}
+	type op struct {
+		term string
+		msg  sdk.Msg
+		desc map[string]any
+	}
+	accepting := func(m uint32, c string, v bool) op {
+		return op{fmt.Sprintf("(CoAccepting %s %s)", nTerm(e.id(c)), coqBool(v)),
+			&exchange.MsgMarketUpdateAcceptingCommitmentsRequest{Admin: c, MarketId: m, AcceptingCommitments: v},
+			map[string]any{"op": "MarketUpdateAcceptingCommitments", "caller": e.id(c), "accepting_commitments": v}}
+	}
+	denom := func(m uint32, c string, v bool) op {
+		d := ""
+		if v {
+			d = "cherry"
+		}
+		return op{fmt.Sprintf("(CoDenom %s %s)", nTerm(e.id(c)), coqBool(v)),
+			&exchange.MsgMarketUpdateIntermediaryDenomRequest{Admin: c, MarketId: m, IntermediaryDenom: d},
+			map[string]any{"op": "MarketUpdateIntermediaryDenom", "caller": e.id(c), "denom": d}}
+	}
+	fees := func(m uint32, c string, add, remove, set, unset bool) op {
+		msg := &exchange.MsgGovManageFeesRequest{Authority: c, MarketId: m, UnsetFeeCommitmentSettlementBips: unset}
+		if add {
+			msg.AddFeeCreateCommitmentFlat = []sdk.Coin{cfeeCoin}
+		}
+		if remove {
+			msg.RemoveFeeCreateCommitmentFlat = []sdk.Coin{cfeeCoin}
+		}
+		if set {
+			msg.SetFeeCommitmentSettlementBips = 25
+		}
+		return op{fmt.Sprintf("(CoFees %s %s %s %s %s)", nTerm(e.id(c)), coqBool(add), coqBool(remove), coqBool(set), coqBool(unset)), msg,
+			map[string]any{"op": "GovManageFees", "caller": e.id(c), "add_create_commitment_fee": add, "remove_create_commitment_fee": remove, "set_bips": set, "unset_bips": unset}}
+	}
+	runHist := func(kind string, m uint32, ops func(ctx sdk.Context) []op, steps int) {
+		hctx, _ := ctx0.CacheContext()
+		c0 := read(hctx, m)
+		st := grantsOf(hctx, m)
+		var terms []string
+		var descs []map[string]any
+		okN := 0
+		for i := 0; i < steps; i++ {
+			list := ops(hctx)
+			if i >= len(list) && kind != "random" {
+				break
+			}
+			o := list[0]
+			if kind != "random" {
+				o = list[i]
+			}
+			h0 := e.dumpHash(hctx)
+			sctx, write := hctx.CacheContext()
+			err := e.send(sctx, o.msg)
+			after := read(sctx, m)
+			wrote := false
+			if err == nil {
+				write()
+				okN++
+				e.w.Count("commit_steps_accepted")
+			} else {
+				wrote = e.dumpHash(sctx) != h0
+			}
+			e.w.Count("commit_steps")
+			terms = append(terms, fmt.Sprintf("{| co_op := %s; co_ok := %s; co_after := %s; co_wrote := %s |}", o.term, coqBool(err == nil), confTerm(after), coqBool(wrote)))
+			o.desc["passed"] = err == nil
+			o.desc["market_after"] = map[string]bool{"accepting_commitments": after.acc, "settlement_bips": after.bips, "create_commitment_fee": after.cfee, "intermediary_denom": after.denom}
+			descs = append(descs, o.desc)
+		}
+		e.w.Add(fmt.Sprintf("CCommit 0%%N %s %s %s %s", st, nTerm(int64(m)), confTerm(c0), coqList(terms)),
+			map[string]any{"kind": "commitment_settings_history", "shape": kind, "market": m,
+				"market_before": map[string]bool{"accepting_commitments": c0.acc, "settlement_bips": c0.bips, "create_commitment_fee": c0.cfee, "intermediary_denom": c0.denom}, "steps": descs})
+		e.w.Count("commit_histories")
+		if okN > 0 {
+			e.w.Nontrivial(fmt.Sprintf("ch/%s/%d/%s", kind, m, strings.Join(terms, "")))
+		}
+	}
+	callers := []string{U, V, W, e.auth}
+	// matrix: every configuration x caller x new value, one request each
+	for c, m := range marketOf {
+		_ = c
+		for _, who := range callers {
+			for _, v := range []bool{true, false} {
+				who, v, m := who, v, m
+				runHist("single", m, func(sdk.Context) []op { return []op{accepting(m, who, v)} }, 1)
+			}
+		}
+	}
+	// the sequences: rejected, change the market so that a condition on OTHER fields would flip, try again
+	for _, c0 := range []conf{{false, false, false, false}, {false, false, false, true}, {true, false, false, false}} {
+		m := marketOf[c0]
+		runHist("reserved_branch_sequence", m, func(sdk.Context) []op {
+			return []op{
+				accepting(m, U, true), // no commitment fees: reserved for the authority
+				denom(m, U, true),     // legal with PERMISSION_UPDATE
+				accepting(m, U, true), // an intermediary denom is not a commitment fee
+				denom(m, U, false), accepting(m, U, true),
+				denom(m, V, true),                            // no PERMISSION_UPDATE
+				fees(m, U, true, false, false, false),        // fees are governance's
+				fees(m, e.auth, true, false, false, false),   // a creation fee appears
+				accepting(m, W, true), accepting(m, V, true), // still need the permission
+				accepting(m, U, true), accepting(m, U, true), // now allowed; then "already"
+				accepting(m, U, false),
+				fees(m, e.auth, false, true, false, false), // fee removed again
+				accepting(m, U, true),                      // reserved again
+				denom(m, U, true), accepting(m, U, true),
+				fees(m, e.auth, false, false, true, false), // settlement bips
+				accepting(m, U, true), accepting(m, U, false),
+				fees(m, e.auth, false, false, false, true), // bips unset: no fees at all
+				accepting(m, U, true),
+				accepting(m, e.auth, true), // the authority may
+				accepting(m, U, false),     // switching OFF is always the holder's
+				accepting(m, U, true),
+			}
+		}, 40)
+	}
+	// random histories
+	nh := scale(80, 2000)
+	confs := make([]conf, 0, 16)
+	for c := range marketOf {
+		confs = append(confs, c)
+	}
+	sort.Slice(confs, func(i, j int) bool { return marketOf[confs[i]] < marketOf[confs[j]] })
+	for h := 0; h < nh; h++ {
+		m := marketOf[confs[e.r.Intn(len(confs))]]
+		runHist("random", m, func(ctx sdk.Context) []op {
+			cur := read(ctx, m)
+			who := callers[e.r.Intn(len(callers))]
+			if e.r.Intn(2) == 0 {
+				who = U
+			}
+			switch k := e.r.Intn(10); {
+			case k < 5:
+				v := !cur.acc
+				if e.r.Intn(6) == 0 {
+					v = cur.acc
+				}
+				return []op{accepting(m, who, v)}
+			case k < 7:
+				return []op{denom(m, who, e.r.Intn(2) == 0)}
+			default:
+				if e.r.Intn(3) != 0 {
+					who = e.auth
+				}
+				switch e.r.Intn(4) {
+				case 0:
+					return []op{fees(m, who, true, false, false, false)}
+				case 1:
+					return []op{fees(m, who, false, true, false, false)}
+				case 2:
+					return []op{fees(m, who, false, false, true, false)}
+				}
+				return []op{fees(m, who, false, false, false, true)}
+			}
+		}, 10)
 	}
 }
 
